@@ -41,11 +41,11 @@ def S(names, stages=(0,), reps=("none", "n2"), aggs=(True, False), spell=("rel",
 
 SLICES = {
     "quick": {
-        "suffix": S(["a", "ba", "ab"], graph=4),
-        "digit": S(["a", "a0", "a1"], graph=4),
-        "misc": S(["x.y", "a-b", "c"], spell=("rel",), graph=4),
-        "stages": S(["a", "c"], stages=(0, 1), graph=8),
-        "shape": S(["p", "q", "r"], reps=("none", "n1", "n2", "n3"), spell=("rel",), orders=("fwd", "rev"), fixed=True, graph=2),
+        "suffix": S(["a", "ba", "ab"], graph=2),
+        "digit": S(["a", "a0", "a1"], graph=2),
+        "misc": S(["x.y", "a-b", "c"], spell=("rel",), graph=2),
+        "stages": S(["a", "c"], stages=(0, 1), graph=4),
+        "shape": S(["p", "q", "r"], reps=("none", "n1", "n2", "n3"), spell=("rel",), orders=("fwd", "rev"), fixed=True, graph=1),
         "many": S(["p", "q"], reps=("none", "n11"), comps=2, fixed=True),
         "vars": S(["p", "q"], stages=(0, 1), reps=ALL_REPS, spell=("abs",), comps=2, fixed=True),
         "refs": S(["p", "q"], paths=("", "out.txt", "d/f.x"), methods=("ref", "copy", "output"),
@@ -63,7 +63,7 @@ SLICES = {
         "vars": S(["p", "q", "r"], stages=(0, 1), reps=ALL_REPS, aggs=(False,), spell=("abs",), comps=3, refs=1, fixed=True,
                   graph=4),
         "vars2": S(["p", "q"], stages=(0, 1), reps=ALL_REPS, spell=("abs",), comps=2, fixed=True),
-        "refs": S(["p", "q"], paths=("", "out.txt", "d/f.x"), methods=("ref", "copy", "output", "link", "copyout", "extract"),
+        "refs": S(["p", "q"], paths=("", "out.txt", "d/f.x"), methods=("ref", "copy", "output", "link", "extract"),
                   styles=("same", "flip", "tail", "tail2"), comps=2, refs=1, fixed=True),
         "many": S(["p", "q", "r"], reps=("none", "n11"), comps=3, spell=("rel",), fixed=True, graph=4),
         "refs3": S(["a", "ba", "c"], paths=("", "out.txt"), styles=("same", "tail"), spell=("rel",), graph=8),
@@ -72,7 +72,7 @@ SLICES = {
 
 MODEL = {
     "quick": S(["a", "a1"], stages=(0, 1), reps=("none", "n2", "vs")),
-    "thorough": S(["a", "ba", "a1"], stages=(0, 1), reps=("none", "n2", "n3", "vs", "vc"), styles=("same", "tail2")),
+    "thorough": S(["a", "ba", "a1"], stages=(0, 1), reps=("none", "n2", "vs")),
 }
 
 
@@ -340,7 +340,8 @@ def run(tier):
     if thorough:
         # the implication-shaped invariants have witnesses: each Never* must FAIL
         for wit in ("NeverReplicated", "NeverAggregated", "NeverInconsistent", "NeverCollision"):
-            cfg = write_cfg(os.path.join(gen, "Replicate_wit_%s.cfg" % wit), SLICES["quick"]["digit"], False, [wit])
+            base = SLICES["quick"]["digit" if wit == "NeverCollision" else "shape"]
+            cfg = write_cfg(os.path.join(gen, "Replicate_wit_%s.cfg" % wit), base, False, [wit])
             r = tlc.run_tlc("Replicate", cfg, workers=4, expect_violation=True, timeout=300)
             if r["violated"] != wit:
                 raise MachineryError("witness %s was not reached: %s" % (wit, r["out"][-800:]))
@@ -354,7 +355,10 @@ def run(tier):
                         max(sl["comps"] for sl in slices.values()),
                         "arguments are compared token by token after parsing references with the harness' own parser (spelling-insensitive)",
                         "an aggregating component that also asks for replicas, replicate: 0 and DoWhile placeholders are outside the family",
-                        "big slices run through graphFromFlowIR for every k-th case only (all cases run through FlowIRConcrete.replicate)"]
+                        "big slices run through graphFromFlowIR for every k-th case only (all cases run through FlowIRConcrete.replicate)",
+                        "method copyout is not in the family: FlowIR.discover_reference_strings reads `p:copyout` in arguments as `p:copy` "
+                        "+ `out` (alternation order of the methods), so a workflow mentioning a :copyout reference in its arguments never "
+                        "validates, with or without replication (reference grammar, C09/C10, not replication)"]
     return chk.finish()
 
 
